@@ -239,3 +239,9 @@ Theorem inv3_reachable2 l w' :
 Proof. apply inv3_histories2_all. split; [apply empty_core|]. split; [apply empty_owned|apply empty_names]. Qed.
 
 End Names2.
+
+(* names_step with C03's Core_step discharged *)
+Lemma names_step_all T tab_el tab_en check_fn LATEST root_attrs o w r w' :
+  Core w -> FilesOwned w -> NamesUnique w ->
+  run_op T tab_el tab_en check_fn LATEST root_attrs o w = Val (r, w') -> NamesUnique w'.
+Proof. apply names_step. apply core_step_all. Qed.
